@@ -21,14 +21,14 @@ Definition o2 (f : Z -> Z -> option Z) : list Z -> list Z :=
 Definition table2 : list (string * (list Z -> list Z)) :=
   ("ctor_vect", fun l => ctor_vect l :: nil) :: ("cast_vect", fun l => cast_vect (A 0 l)) ::
   ("isZero_I", b1 isZero_I) :: ("isZero_i64", b1 isZero_i64) :: ("isZero_u64", b1 isZero_u64) :: ("priv_sign", f1 priv_sign) ::
-  ("opAnd_u64_fixed", f2 opAnd_u64_fixed) :: ("opAnd_u32_fixed", f2 opAnd_u32_fixed) ::
+  
   ("nonZero", fun l => b2z (negb (Z.eqb (nonZero (A 0 l)) 0)) :: nil) ::
   ("compare_I", f2 compare_I) :: ("absCompare_I", f2 absCompare_I) :: ("absCompare_d", f3 absCompare_d) ::
   ("absCompare_f", f3 absCompare_f) :: ("absCompare_u64", f2 absCompare_u64) :: ("absCompare_u32", f2 absCompare_u32) ::
   ("absCompare_i64", f2 absCompare_i64) :: ("absCompare_i32", f2 absCompare_i32) ::
-  ("absCompare_i32_fixed", f2 absCompare_i32_fixed) :: ("absCompareT_u64", f2 absCompareT_u64) ::
+  ("absCompareT_u64", f2 absCompareT_u64) ::
   ("absCompareT_i64", f2 absCompareT_i64) :: ("absCompareT_u32", f2 absCompareT_u32) ::
-  ("absCompareT_i32", f2 absCompareT_i32) :: ("absCompareT_i32_fixed", f2 absCompareT_i32_fixed) ::
+  ("absCompareT_i32", f2 absCompareT_i32) :: 
   ("absCompareT_d", f3 absCompareT_d) :: ("opNe_I", b2 opNe_I) :: ("opNe_d", b3 opNe_d) :: ("opNe_f", b3 opNe_f) ::
   ("opNe_i32", b2 opNe_i32) :: ("opNe_u32", b2 opNe_u32) :: ("opNe_i64", b2 opNe_i64) :: ("opNe_u64", b2 opNe_u64) ::
   ("opEq_I", b2 opEq_I) :: ("opEq_d", b3 opEq_d) :: ("opEq_f", b3 opEq_f) :: ("opEq_i32", b2 opEq_i32) ::
@@ -75,16 +75,16 @@ Definition table2 : list (string * (list Z -> list Z)) :=
   ("dom_islt_Ii", b2 dom_islt_Ii) :: ("pow3_u64", f2 pow3_u64) :: ("pow3_uu", f2 pow3_uu) :: ("pow_u64", f2 pow_u64) ::
   ("pow3_i64", f2 pow3_i64) :: ("pow_i64", f2 pow_i64) :: ("pow3_i32", f2 pow3_i32) :: ("pow3_u32", f2 pow3_u32) ::
   ("pow_i32", f2 pow_i32) :: ("pow_u32", f2 pow_u32) :: ("inv3", f3 inv3) :: ("invin", f2 invin) ::
-  ("powmod3_I", f3 powmod3_I) :: ("powmod_I", f3 powmod_I) :: ("powmod_I_fixed", f3 powmod_I_fixed) ::
-  ("powmod3_u64", f3 powmod3_u64) :: ("powmod_u64", f3 powmod_u64) :: ("powmod_u64_fixed", f3 powmod_u64_fixed) ::
+  ("powmod3_I", f3 powmod3_I) :: ("powmod_I", f3 powmod_I) :: 
+  ("powmod3_u64", f3 powmod3_u64) :: ("powmod_u64", f3 powmod_u64) :: 
   ("powmod3_i64", f4 powmod3_i64) :: ("powmod_i64", f3 powmod_i64) :: ("powmod3_u32", f3 powmod3_u32) ::
-  ("powmod3_i32", f4 powmod3_i32) :: ("powmod_u32", f3 powmod_u32) :: ("powmod_u32_fixed", f3 powmod_u32_fixed) ::
+  ("powmod3_i32", f4 powmod3_i32) :: ("powmod_u32", f3 powmod_u32) :: 
   ("powmod_i32", f3 powmod_i32) :: ("lcm_v", f2 lcm_v) :: ("lcm3", f2 lcm3) :: ("gcd_v", f2 gcd_v) ::
   ("gcd3", f2 gcd3) :: ("gcdext_v", t2 gcdext_v) :: ("gcdext5", t2 gcdext5) :: ("sqrt2", f1 sqrt2) ::
   ("sqrtrem3", p1 sqrtrem3) :: ("sqrt_v", f1 sqrt_v) :: ("sqrtrem_v", p1 sqrtrem_v) :: ("root", rb2 root) ::
   ("dom_pow_i64", f3 dom_pow_i64) :: ("dom_pow_u64", f3 dom_pow_u64) :: ("dom_pow_i32", f3 dom_pow_i32) ::
   ("dom_pow_u32", f3 dom_pow_u32) :: ("dom_powmod_i64", f4 dom_powmod_i64) :: ("dom_powmod_I", f4 dom_powmod_I) ::
-  ("dom_powmod_I_fixed", f4 dom_powmod_I_fixed) :: ("dom_gcdin", f2 dom_gcdin) :: ("dom_lcmin", f2 dom_lcmin) ::
+  ("dom_gcdin", f2 dom_gcdin) :: ("dom_lcmin", f2 dom_lcmin) ::
   ("dom_dxgcd", q2 dom_dxgcd) :: ("dom_inv_unit", o2 dom_inv_unit) :: ("dom_invin_unit", o1 dom_invin_unit) ::
   ("dom_abs2", f2 dom_abs2) :: nil.
 
